@@ -225,7 +225,18 @@ def specs(tier):
             Spec("h2_attempt_lifecycle", build_h2(), cfg=exec_cfg(), unwind=3, timeout=1800,
                  desc="real GrevmExecutor::execute_incarnation call discipline with revm's Evm / handler / IncarnationDb as recording ghosts", bounds={}),
             Spec("h3_alloy_adapter", build_h3(), cfg=adapter_cfg(), unwind=3, timeout=1800,
-                 desc="real adapter closure of DynParallelPrecompile::to_alloy: implementation = any result, facade fault = none / halt / fatal", bounds={})]
+                 desc="real adapter closure of DynParallelPrecompile::to_alloy: implementation = any result, facade fault = none / halt / fatal", bounds={})] + _c12_build_evm(tier)
+
+
+def _c12_build_evm(tier):
+    """the EVM construction helper shared by both execution paths registers every custom precompile once, at its address, through to_alloy"""
+    import c12
+    out = []
+    for s_ in c12.specs(tier):
+        if s_.name == "h4_build_evm":
+            s_.name = "h4_build_evm_registers_precompiles"
+            out.append(s_)
+    return out
 
 
 # ------------------------------------------------------------------------------------------------ h3: the Alloy adapter closure of to_alloy
